@@ -40,7 +40,10 @@ EXTENDS Integers, Sequences, FiniteSets, TLC
 
 CONSTANTS Writers, Subs, Ids, MaxV,
           Programs,            \* set of call records a writer may be given
-          SubKinds,            \* set of [uo : BOOLEAN, lossy : BOOLEAN] records a subscriber may be given
+          SubKinds,            \* set of [uo, lossy, masked : BOOLEAN] records a subscriber may be given (masked: it has
+                               \* a read mask that keeps the tracked field; it is handed projections made for it
+                               \* alone, the other subscribers still get the whole message -- ConcTrace.tla judges that
+                               \* on the messages themselves, the bodies here are the tracked integer only)
           InitStores,          \* set of initial contents [Ids -> -1..MaxV]
           PublishAfterUnlock, CreatedRevalidated,
           CollectLive,         \* TRUE = the code: after a publication that met a cancelled listener the bus keeps the
